@@ -61,11 +61,11 @@ def _atoms_of_expr(e, S: Summary, P, func, cond_flag=None):
             return set()
         if d in ("set", "frozenset", "sorted", "list") and e.args:
             return _atoms_of_expr(e.args[0], S, P, func)
-        if d == "stmt.get_read_variables":
+        if d == f"{S.roles['stmt']}.get_read_variables":
             return {"R"}
-        if d == "stmt.get_written_variables":
+        if d == f"{S.roles['stmt']}.get_written_variables":
             return {"W"}
-        if d == "get_variables" and e.args and dotted(e.args[0]) == "condition":
+        if d == "get_variables" and e.args and dotted(e.args[0]) == S.roles["condition"]:
             return {"C"}
     if isinstance(e, ast.SetComp) and len(e.generators) == 1:
         g = e.generators[0]
@@ -90,9 +90,23 @@ def _tag(atoms, flag):
     return {f"NA:{a}" if flag and not a.startswith("NA:") else a for a in atoms}
 
 
+def _roles(f):
+    stmt = f.params[1]
+    sid = None
+    for s_ in func_body_stmts(f.node):
+        if isinstance(s_, ast.Assign) and isinstance(s_.value, ast.Call) \
+                and dotted(s_.value.func) == "self.next_statement_id" \
+                and isinstance(s_.targets[0], ast.Name):
+            sid = s_.targets[0].id
+    if sid is None:
+        raise AnalysisError("_add_statement: statement id variable not found")
+    return {"stmt": stmt, "stmt_id": sid, "condition": _cond_var(f)}
+
+
 def summarise(P):
     f = P.func(f"{CB}._add_statement")
     S = Summary()
+    S.roles = _roles(f)
     na_name = None
     assign_tuple = None
 
@@ -115,8 +129,9 @@ def summarise(P):
                     assign_tuple = v.operand.args[1]
                     S.events.append(("na", s, None))
                     continue
-                if name in ("stmt_id", "condition", "stmt"):
-                    S.events.append((f"bind:{name}", s, None))
+                role = [r for r, nm in S.roles.items() if nm == name]
+                if role and not (isinstance(v, ast.Call) and dotted(v.func) in ("set", "frozenset")):
+                    S.events.append((f"bind:{role[0]}", s, None))
                     continue
                 try:
                     S.sets[name] = frozenset(_tag(_atoms_of_expr(v, S, P, f), na))
@@ -140,6 +155,8 @@ def summarise(P):
                     if dotted(c.args[0]) == "self._EXECUTION_STATE":
                         S.sets[d[:-4]] = S.sets[d[:-4]] | frozenset(_tag({"X"}, na))
                         continue
+                if d == "self.statements.append":
+                    pass
                 if d == "self.statements.append":
                     S.events.append(("append", s, dotted(c.args[0]) if c.args else None))
                     continue
@@ -223,14 +240,14 @@ def _loop(lp, S, P, f):
             if isinstance(c.func, ast.Attribute) and c.func.attr == "add" \
                     and isinstance(c.func.value, ast.Call) \
                     and dotted(c.func.value.func) == "self._reader_map.setdefault" \
-                    and dotted(c.func.value.args[0]) == v and dotted(c.args[0]) == "stmt_id":
+                    and dotted(c.func.value.args[0]) == v and dotted(c.args[0]) == S.roles["stmt_id"]:
                 info["rm_update"] = "accumulate"
                 continue
         if isinstance(s, ast.Assign) and len(s.targets) == 1 \
                 and isinstance(s.targets[0], ast.Subscript) \
                 and dotted(s.targets[0].slice) == v:
             m = dotted(s.targets[0].value)
-            if m == "self._writer_map" and dotted(s.value) == "stmt_id":
+            if m == "self._writer_map" and dotted(s.value) == S.roles["stmt_id"]:
                 info["wm_update"] = True
                 continue
             if m == "self._reader_map":
@@ -347,19 +364,25 @@ def check(run, P):
                why="clearing first loses the WAR edges")
 
     # stored
+    R = S.roles
     copies = [x for x in ast.walk(f.node) if isinstance(x, ast.Call)
-              and dotted(x.func) == "stmt.copy"]
+              and dotted(x.func) == f"{R['stmt']}.copy"]
     ok = len(copies) == 1
     if ok:
         kws = {k.arg: k.value for k in copies[0].keywords}
-        ok = dotted(kws.get("id")) == "stmt_id" and dotted(kws.get("condition")) == "condition" \
+        ok = dotted(kws.get("id")) == R["stmt_id"] and dotted(kws.get("condition")) == R["condition"] \
             and kws.get("depends_on") is not None \
             and S.dep_name in ast.unparse(kws["depends_on"]) \
             and set(kws) == {"id", "condition", "depends_on"}
     run.ob("C02.stored", f, copies[0] if copies else f.node, ok,
            why="the stored statement must carry exactly the computed edges and guard")
     app = [(n, i) for k, n, i in S.events if k == "append"]
-    ok = len(app) == 1 and app[0][1] == "stmt"
+    stored = None
+    for s_ in func_body_stmts(f.node):
+        if isinstance(s_, ast.Assign) and copies and s_.value is copies[0] \
+                and isinstance(s_.targets[0], ast.Name):
+            stored = s_.targets[0].id
+    ok = len(app) == 1 and stored is not None and app[0][1] == stored
     # the append follows the copy
     run.ob("C02.stored", f, app[0][0] if app else f.node,
            ok and copies and app[0][0].lineno > copies[0].lineno,
@@ -395,32 +418,65 @@ def check(run, P):
     _fresh(run, P)
 
 
+def _cond_var(f):
+    """The local holding the guard: the name passed as condition= to stmt.copy()."""
+    for x in ast.walk(f.node):
+        if isinstance(x, ast.Call) and isinstance(x.func, ast.Attribute) and x.func.attr == "copy":
+            for k in x.keywords:
+                if k.arg == "condition" and isinstance(k.value, ast.Name):
+                    return k.value.id
+    raise AnalysisError("_add_statement: condition= of the stored copy not found")
+
+
 def _condition(run, P, f):
+    cv = _cond_var(f)
+    stack = "self._conditional_expression_stack"
     cond = None
-    for s in f.node.body:
-        if isinstance(s, ast.If) and "_conditional_expression_stack" in ast.unparse(s.test):
-            cond = s
+    for s_ in f.node.body:
+        if isinstance(s_, ast.If) and stack in ast.unparse(s_.test):
+            cond = s_
     if cond is None:
         raise AnalysisError("_add_statement: guard construction not found")
-    # not stack -> True
     t0 = ast.unparse(cond.test)
-    ok = t0 == "not self._conditional_expression_stack" and len(cond.body) == 1 \
-        and ast.unparse(cond.body[0]) == "condition = True"
+    ok = t0 == f"not {stack}" and len(cond.body) == 1 \
+        and ast.unparse(cond.body[0]) == f"{cv} = True"
     run.ob("C02.cond", f, cond, ok, construct="empty stack -> condition = True",
            why="unguarded statements must run unconditionally")
     e1 = cond.orelse[0] if cond.orelse and isinstance(cond.orelse[0], ast.If) else None
-    ok = e1 is not None and ast.unparse(e1.test) == "len(self._conditional_expression_stack) == 1" \
-        and ast.unparse(e1.body[0]) == "condition = self._conditional_expression_stack[0]"
+    ok = e1 is not None and ast.unparse(e1.test) == f"len({stack}) == 1" \
+        and ast.unparse(e1.body[0]) == f"{cv} = {stack}[0]"
     run.ob("C02.cond", f, e1 if e1 is not None else cond, ok,
            construct="one entry -> condition = stack[0]",
            why="single guard")
     ok = False
     if e1 is not None and e1.orelse:
-        src = " ".join(ast.unparse(s) for s in e1.orelse)
-        ok = "condition = LogicalAnd(tuple(self._conditional_expression_stack))" in src
+        src = " ".join(ast.unparse(s_) for s_ in e1.orelse)
+        ok = f"{cv} = LogicalAnd(tuple({stack}))" in src
     run.ob("C02.cond", f, e1.orelse[-1] if e1 is not None and e1.orelse else cond, ok,
            construct="several entries -> LogicalAnd(tuple(stack))",
            why="a nested block must be guarded by all enclosing guards, not only the innermost")
+
+
+def _condition_names(f):
+    """Locals of if_ that hold the user's condition: assigned from the
+    argument tuple, parse(...) of it, or Comparison(...)."""
+    out = set()
+    va = f.node.args.vararg.arg if f.node.args.vararg else None
+    changed = True
+    while changed:
+        changed = False
+        for s_ in func_body_stmts(f.node):
+            if isinstance(s_, ast.Assign) and len(s_.targets) == 1 \
+                    and isinstance(s_.targets[0], ast.Name) and s_.targets[0].id not in out:
+                v = s_.value
+                src = ast.unparse(v)
+                if (va and src == f"{va}[0]") or (
+                        isinstance(v, ast.Call) and dotted(v.func) == "parse" and v.args
+                        and dotted(v.args[0]) in out) or (
+                        isinstance(v, ast.Call) and dotted(v.func) == "Comparison"):
+                    out.add(s_.targets[0].id)
+                    changed = True
+    return out
 
 
 def _guard(run, P):
@@ -478,8 +534,9 @@ def _guard(run, P):
         if isinstance(s_, ast.Assign) and isinstance(s_.value, ast.Call) \
                 and dotted(s_.value.func) == "Assign":
             kws = {k.arg: k.value for k in s_.value.keywords}
+            cond_names = _condition_names(f)
             ok = dotted(kws.get("assignee")) == f"{flag}.name" \
-                and dotted(kws.get("expression")) == "condition"
+                and dotted(kws.get("expression")) in cond_names
     run.ob("C02.guard", f, f.node, ok,
            construct=f"Assign(assignee={flag}.name, expression=condition)",
            why="the flag must hold the value of the condition at block entry")
